@@ -80,10 +80,11 @@ def check(pid: str, tier: str, seed: int):
         from maltoolbox.attackgraph import AttackGraph
         from maltoolbox.attackgraph.analyzers.apriori import calculate_viability_and_necessity
         neo.Graph = FakeGraph
-        lgen = LG.LangGen(rng, dup_assoc_names=0.3)
+        lgen = LG.LangGen(rng, dup_assoc_names=0.3, reuse_fields=0.4)
         n = 70 if tier == 'quick' else 800
-        for i in range(n):
-            L = lgen.gen()
+        special = LG.parallel_field_langs() * 3
+        for i in range(n + len(special)):
+            L = lgen.gen() if i < n else special[i - n]
             sigs = [(a['name'], a['leftAsset'], a['rightAsset']) for a in L['associations']]
             if len(set(sigs)) != len(sigs):
                 continue
@@ -91,7 +92,7 @@ def check(pid: str, tier: str, seed: int):
                 lg, lcf = MG.make_lang(impl, L)
             except Exception:
                 continue
-            m = MG.gen_model(impl, rng, L, lg, lcf, n_assets=(1, 6), explicit_ids=0.3)
+            m = MG.gen_model(impl, rng, L, lg, lcf, n_assets=(1, 6) if i < n else (6, 9), explicit_ids=0.3, link_density=0.6 if i < n else 1.0)
             content = PMIO.content_of(m)
             pv = []
             # ---- export of the model
@@ -137,6 +138,8 @@ def check(pid: str, tier: str, seed: int):
                 ag = AttackGraph(lg, m)
                 if rng.random() < 0.5:
                     calculate_viability_and_necessity(ag)
+                if ag.nodes and rng.random() < 0.6:
+                    ag.remove_node(rng.choice(ag.nodes))            # ids no longer equal list positions
                 neo.ingest_attack_graph(ag, 'uri', 'u', 'p', 'db')
                 g2 = FakeGraph.last
                 n2, r2 = sent(g2)
